@@ -21,6 +21,8 @@ package trend
 //@ ensures[C01] forall k :: 0 <= k && k < len(result) ==> result[k] == (psum(c, k + s.Period) - psum(c, k)) / s.Period
 //@ ensures[C03] consumed(c) == len(c) && closed(result)
 //@ ensures[C04] forall kk :: 0 <= kk && kk < len(result) ==> hor(result, kk) <= hor(c, kk + s.IdlePeriod())
+//@ use psum_window_nonneg(c, _, _)
+//@ offers[C15] "positivity" (forall j :: 0 <= j && j < len(c) ==> c[j] >= 0) ==> (forall k :: 0 <= k && k < len(result) ==> result[k] >= 0)
 
 // emaS(c,P,m,k): EMA recursion (value - prev) * m + prev seeded with the SMA of the first P values.
 //@ func Ema.Compute
@@ -33,6 +35,9 @@ package trend
 //@ loop#0 invariant multiplier == e.Smoothing / (e.Period + 1) && before == emaS(c, e.Period, multiplier, sent(result) - 1)
 //@ loop#0 invariant forall k :: 0 <= k && k < sent(result) ==> result[k] == emaS(c, e.Period, multiplier, k)
 //@ loop#0 invariant forall k :: 0 <= k && k < sent(result) ==> hor(result, k) <= hor(c, k + e.Period - 1)
+//@ use[cond] ratio01(e.Smoothing, e.Period + 1)
+//@ use[cond] ema_nonneg(c, e.Period, e.Smoothing / (e.Period + 1), _)
+//@ offers[C15] "positivity" 0 <= e.Smoothing && e.Smoothing <= e.Period + 1 && (forall j :: 0 <= j && j < len(c) ==> c[j] >= 0) ==> (forall k :: 0 <= k && k < len(result) ==> result[k] >= 0)
 
 //@ func Rma.Compute
 //@ requires r.Period >= 1 && consumed(c) == 0
@@ -44,6 +49,8 @@ package trend
 //@ loop#0 invariant before == rmaS(c, r.Period, sent(result) - 1)
 //@ loop#0 invariant forall k :: 0 <= k && k < sent(result) ==> result[k] == rmaS(c, r.Period, k)
 //@ loop#0 invariant forall k :: 0 <= k && k < sent(result) ==> hor(result, k) <= hor(c, k + r.Period - 1)
+//@ use rma_nonneg(c, r.Period, _)
+//@ offers[C15] "positivity" (forall j :: 0 <= j && j < len(c) ==> c[j] >= 0) ==> (forall k :: 0 <= k && k < len(result) ==> result[k] >= 0)
 
 //@ func Smma.Compute
 //@ requires s.Period >= 1 && consumed(c) == 0
@@ -55,18 +62,34 @@ package trend
 //@ loop#0 invariant before == rmaS(c, s.Period, sent(result) - 1)
 //@ loop#0 invariant forall k :: 0 <= k && k < sent(result) ==> result[k] == rmaS(c, s.Period, k)
 //@ loop#0 invariant forall k :: 0 <= k && k < sent(result) ==> hor(result, k) <= hor(c, k + s.Period - 1)
+//@ use rma_nonneg(c, s.Period, _)
+//@ offers[C15] "positivity" (forall j :: 0 <= j && j < len(c) ==> c[j] >= 0) ==> (forall k :: 0 <= k && k < len(result) ==> result[k] >= 0)
 
+// admissible configurations of the moving averages (public fields, not protected by constructors): assumed where a
+// value is only known through the Ma interface; every Compute contract repeats its part as a precondition
+//@ typeinv Sma :: self.Period >= 1
+//@ typeinv Ema :: self.Period >= 1
+//@ typeinv Smma :: self.Period >= 1
+//@ typeinv Wma :: self.Period >= 1
+//@ typeinv Kama :: self.ErPeriod >= 1
+//@ typeinv Hma :: self.wma1.Period >= 1 && self.wma2.Period >= self.wma1.Period && self.wma3.Period >= 1
+
+// moving averages that are positive combinations of their inputs (so non-negative inputs give non-negative outputs)
+//@ macro posma(x) = istype(x, "trend.Sma") || istype(x, "trend.Smma") || (istype(x, "trend.Ema") && 0 <= as(x, "trend.Ema").Smoothing && as(x, "trend.Ema").Smoothing <= as(x, "trend.Ema").Period + 1)
 // ---- interface Ma: any moving average obeys the warm-up law of its own IdlePeriod ---------------------------
 //@ func interface Ma.IdlePeriod
+//@ attr refinement = checked
 //@ pure
 //@ ensures result >= 0
 //@ func interface Ma.String
 //@ pure
 //@ func interface Ma.Compute
+//@ attr refinement = checked
 //@ requires consumed(p0) == 0
 //@ ensures[C02] len(result) == max(0, len(p0) - self.IdlePeriod())
 //@ ensures[C03] consumed(p0) == len(p0) && closed(result)
 //@ ensures[C04] forall kk :: 0 <= kk && kk < len(result) ==> hor(result, kk) <= hor(p0, kk + self.IdlePeriod())
+//@ offers[C15] "positivity" posma(self) && (forall j :: 0 <= j && j < len(p0) ==> p0[j] >= 0) ==> (forall k :: 0 <= k && k < len(result) ==> result[k] >= 0)
 
 //@ func MovingMax.Compute
 //@ requires m.Period >= 1 && consumed(c) == 0
